@@ -120,7 +120,7 @@ let () =
                let ireals = (try List.map fbits (split ',' (oget "rs")) with _ -> []) in
                cmp "ss" (jn (List.map (fun x -> string_of_int (int_of_z (f_scale_with ifac ioff x))) ireals));
                let idd = (try List.map (fun r -> List.map (fun x -> z_of_int (int_of_string x)) (split ',' r)) (split '/' (oget "d")) with _ -> dd) in
-               cmp "ds" (jn (List.map (fun i -> match disc_score idd ss (nat_of_int i) with Ok b -> string_of_int (int_of_z b) | _ -> "P") positions));
+               cmp "ds" (jn (List.map (fun i -> match sk_disc_score idd ss (nat_of_int i) with Ok b -> string_of_int (int_of_z b) | _ -> "P") positions));
                (* u8 kernels, on the implementation's discrete cells: the kernels, wrappers and tables GENERATED
                   from the source (GenDiscU8.v) -- Score<u8> of the static pipelines (gen_pipeline_u8) and the
                   arms of the dispatcher as compiled on x86 hosts (gen_dispatch_u8_x86) *)
